@@ -28,7 +28,7 @@ REGISTRY = {}  # prop -> [Contract]
 
 class Contract:
     def __init__(self, prop, name, body, replay=None, functions=(), doc="", max_paths=4000, expect_paths=None,
-                 tier="quick"):
+                 tier="quick", timeout_ms=None):
         self.prop = prop
         self.name = name
         self.body = body
@@ -38,6 +38,7 @@ class Contract:
         self.max_paths = max_paths
         self.expect_paths = expect_paths
         self.tier = tier
+        self.timeout_ms = timeout_ms
 
 
 def contract(prop, name, replay=None, functions=(), doc="", **kw):
@@ -103,6 +104,10 @@ class Case:
         if isinstance(claim, bool):
             claim = z3.BoolVal(claim)
         self.path.oblige("%s.%s" % (self.contract.name, label), claim, kind="post", info=info)
+
+    def undecided(self, label, why):
+        self.reached_ensures = True
+        self.path.undecided("%s.%s" % (self.contract.name, label), why)
 
     def fails(self, label, why, **info):
         """Unconditional failure on this path (e.g. a forbidden exception exit was reached)."""
@@ -175,8 +180,14 @@ def _model_value(m, term):
     if z3.is_false(v):
         return False
     if z3.is_string_value(v):
-        return v.as_string()
+        return _unescape_z3(v.as_string())
     return str(v)
+
+
+def _unescape_z3(s):
+    import re as _re
+
+    return _re.sub(r"\\u\{([0-9a-fA-F]+)\}", lambda m: chr(int(m.group(1), 16)), s)
 
 
 def jsonable(v):
@@ -223,9 +234,13 @@ def cvc5_check(smt2, timeout_ms=10000):
         return "unknown"
 
 
-def discharge(ob, inputs, both=False):
+def discharge(ob, inputs, both=False, timeout_ms=None):
     """Decide one obligation.  status in {'discharged','refuted','unknown'} (mustfail: inverted)."""
     t0 = time.time()
+    if ob.kind == "undecidable":
+        ob.status, ob.backend = "unknown", "none"
+        return ob
+    Z3_TIMEOUT_MS = timeout_ms or globals()["Z3_TIMEOUT_MS"]
     s = z3.Solver()
     s.set("timeout", Z3_TIMEOUT_MS)
     for c in ob.pc:
@@ -239,7 +254,7 @@ def discharge(ob, inputs, both=False):
     res = str(r)
     if r == z3.unknown:
         # retry with different seeds, then cvc5
-        for seed in (7, 23):
+        for seed in ((7, 23) if timeout_ms is None else ()):
             s2 = z3.Solver()
             s2.set("timeout", Z3_TIMEOUT_MS)
             s2.set("random_seed", seed)
@@ -306,7 +321,7 @@ def run_contract(con, both=False):
         return case
 
     try:
-        results = explore(thunk, max_paths=con.max_paths)
+        results = explore(thunk, max_paths=con.max_paths, solver_timeout_ms=min(4000, con.timeout_ms or 4000))
     except Unsupported as e:
         out["status"] = "unsupported"
         out["error"] = str(e)
@@ -335,18 +350,28 @@ def run_contract(con, both=False):
     names = {}
     any_ensures = False
     mustfail = {}
+    live_paths = 0
     for pi, (path, case) in enumerate(results):
         assumed |= path.assumed
         out["notes"].extend(path.notes)
-        any_ensures = any_ensures or case.reached_ensures
+        any_ensures = any_ensures or (case is not None and case.reached_ensures) or (case is None and bool(path.obligations))
         # vacuity guard: the path condition (requires + branch conditions) is satisfiable
         cov = engine.Obligation("%s.cover" % con.name, z3.BoolVal(True), path.pc, kind="cover")
-        obls = list(path.obligations) + [cov]
+        discharge(cov, path.inputs, timeout_ms=con.timeout_ms)
+        out["solver_s"] += cov.time
+        if cov.status == "refuted":
+            # the path condition is unsatisfiable (the cheap feasibility probe had timed out): not a path
+            out["infeasible_paths"] = out.get("infeasible_paths", 0) + 1
+            continue
+        live_paths += 1
+        obls = list(path.obligations)
+        out["obligations"].append({"name": "%s.cover.p%d" % (con.name, pi), "base": "%s.cover" % con.name, "kind": "cover",
+                                   "status": cov.status, "backend": cov.backend, "time": round(cov.time, 4), "path": pi, "claim": "path condition satisfiable"})
         for ob in obls:
             k = names.get(ob.name, 0)
             names[ob.name] = k + 1
             full = "%s.p%d" % (ob.name, pi) if len(results) > 1 else ob.name
-            discharge(ob, path.inputs, both=both)
+            discharge(ob, path.inputs, both=both, timeout_ms=con.timeout_ms)
             out["solver_s"] += ob.time
             if ob.kind == "mustfail":
                 # contract-level sanity: the weakened claim must be refutable on at least one path
@@ -362,9 +387,9 @@ def run_contract(con, both=False):
                 rec["info"] = {k: (v if isinstance(v, (str, int, float, bool)) else repr(v)) for k, v in ob.info.items()}
                 rec["pc"] = [str(c)[:300] for c in ob.pc][:40]
                 rec["claim"] = str(ob.claim)[:2000]
-                if ob.status == "refuted" and ob.kind == "post" and con.replay is not None and ob.model is not None:
+                if ob.status == "refuted" and ob.kind in ("post", "inv") and con.replay is not None:
                     try:
-                        rr = con.replay(dict(ob.model), rec)
+                        rr = con.replay(dict(ob.model or {}), rec)
                     except Exception:
                         rr = {"confirmed": False, "detail": "replay crashed: " + traceback.format_exc()[-1500:]}
                     rec["replay"] = jsonable(rr)
@@ -374,6 +399,9 @@ def run_contract(con, both=False):
     for nm, (rank, ob) in mustfail.items():
         out["obligations"].append({"name": nm, "base": nm, "kind": "mustfail", "status": ob.status, "backend": ob.backend,
                                    "time": round(ob.time, 4), "path": -1, "claim": str(ob.claim)[:300]})
+    if live_paths == 0 and out["status"] == "ok":
+        out["status"] = "error"
+        out["error"] = "vacuous: every explored path has an unsatisfiable path condition (contradictory requires?)"
     if not any_ensures and out["status"] == "ok":
         out["status"] = "error"
         out["error"] = "vacuous: no path reached an ensures clause"
